@@ -1,8 +1,234 @@
-//! stub — to be written
-use crate::core::{Acc, Ctx};
-use serde_json::Value;
-pub const RULE: &str = "";
-pub const ASSUMPTIONS: &[&str] = &[];
-pub fn bounds(_quick: bool) -> Value { Value::Null }
-pub fn run(_ctx: &Ctx, _acc: &mut Acc) {}
-pub fn replay(_v: &Value) -> Option<(bool, String)> { None }
+//! C03 — the decoder follows RFC 9639 on every valid stream (not just its own encoder's).
+//! Shape G over the `fgen` frame grammar: all choice vectors with ≤ d deviations + full single-axis sweeps;
+//! every stream is valid by construction, the expected decode is the target PCM; both build profiles.
+use crate::codec::{decode, err_class, ReaderKind};
+use crate::core::{for_each_deviation, guarded, hex, Acc, Ctx};
+use crate::gspace::{self, make_spec, menus, NAMES};
+use flac_codec::decode::{verify_reader, Verified};
+use serde_json::{json, Value};
+use vph::fgen::{self, *};
+use vph::refdec;
+
+pub const RULE: &str = "streams are built by the structure-aware generator fgen from a 23-axis choice vector (channels, depth incl. STREAMINFO-referenced depths, rate and its header coding, depth coding, total known/unknown, MD5 correct/zero/wrong, fixed/variable blocking, seek-table shape, frame count, block size and its coding, short/equal last block, coded-number length, padding, target PCM, subframe kind incl. LPC to order 32 with 15-bit coefficients, which subframes, wasted bits, residual method, partition order, Rice/escape parameters, stereo assignment incl. 33-bit side): ALL vectors with ≤2 (thorough ≤3) deviations from the plain stream, plus full single-axis sweeps (every LPC order × precision × shift class, every Rice parameter for both methods, every escape width, every wasted-bit count at every depth, every depth 1..32, every legal partition order for block sizes 16..64, all stereo modes at 32 bit); each stream is first checked against the independent decoder (generator and reference must invert each other), then decoded by 7 reader front-ends and verify_reader in both build profiles; distinct outcomes = (deviating axes, verdict)";
+pub const ASSUMPTIONS: &[&str] = &["target PCM limited to 5 signal kinds per stream; residual magnitudes follow from them", "vectors with more than 3 simultaneous deviations are only reached through the sweeps"];
+pub fn bounds(quick: bool) -> Value {
+    json!({"deviations": if quick { 2 } else { 3 }, "sweeps": "full"})
+}
+
+const READERS: [ReaderKind; 7] = [ReaderKind::SampleFill, ReaderKind::SampleRead, ReaderKind::SampleIter, ReaderKind::ByteLE, ReaderKind::ByteBE, ReaderKind::ByteFillLE, ReaderKind::Channel];
+
+/// Some(violation) / None. `label` names the case class for signatures.
+pub fn judge(b: &Built, spec: &StreamSpec) -> Result<Option<(String, String)>, String> {
+    // generator ↔ reference binding: a disagreement is a machinery error, never a verdict
+    match guarded(|| refdec::decode(&b.bytes)) {
+        Ok(Ok(st)) if st.pcm == b.pcm => {}
+        Ok(Ok(_)) => return Err("fgen/refdec disagree on PCM".into()),
+        Ok(Err(r)) => return Err(format!("refdec rejects an fgen stream: {} {}", r.code, r.msg)),
+        Err(p) => return Err(format!("refdec panic {p}")),
+    }
+    for r in READERS {
+        match decode(r, &b.bytes) {
+            Ok(d) => {
+                if d.pcm != b.pcm {
+                    let at = d.pcm.iter().zip(&b.pcm).position(|(x, y)| x != y).unwrap_or(d.pcm.len().min(b.pcm.len()));
+                    return Ok(Some(("wrong-samples".into(), format!("{r:?} returns different samples (first difference at {at}: got {:?}, format defines {:?}; {} vs {} samples)", d.pcm.get(at), b.pcm.get(at), d.pcm.len(), b.pcm.len()))));
+                }
+                if d.ch != spec.channels || d.rate != spec.rate || d.bps != spec.bps as u32 {
+                    return Ok(Some(("wrong-parameters".into(), format!("{r:?} reports {}ch {}Hz {}bit", d.ch, d.rate, d.bps))));
+                }
+            }
+            Err((e, _)) => return Ok(Some((format!("rejects-valid-{}", err_class(&e)), format!("{r:?} fails on a valid stream: {e}")))),
+        }
+    }
+    let want = match spec.md5 { Md5Spec::Correct => Verified::MD5Match, Md5Spec::Zero => Verified::NoMD5, Md5Spec::Wrong => Verified::MD5Mismatch };
+    match guarded(|| verify_reader(&b.bytes[..])) {
+        Ok(Ok(v)) if v == want => {}
+        Ok(Ok(v)) => return Ok(Some(("md5-verdict".into(), format!("verify_reader says {v:?}, expected {want:?}")))),
+        Ok(Err(e)) => return Ok(Some((format!("verify-fails-{e:?}").split('(').next().unwrap().to_string(), format!("verify_reader fails on a valid stream: {e:?}")))),
+        Err(p) => return Ok(Some((format!("panic@{}", crate::core::panic_loc(&p)), format!("verify_reader panics: {p}")))),
+    }
+    Ok(None)
+}
+
+fn run_spec(acc: &mut Acc, spec: &StreamSpec, class: &str, origin: Value) {
+    let b = match fgen::build(spec) {
+        Ok(b) => b,
+        Err(_) => {
+            acc.outcome(format!("{class}:unbuildable"));
+            acc.dim("unbuildable", 1);
+            return;
+        }
+    };
+    acc.states += 1;
+    acc.executions += 1;
+    acc.transitions += 9;
+    match judge(&b, spec) {
+        Err(m) => {
+            acc.outcome(format!("{class}:machinery"));
+            acc.notes.push(format!("machinery: {m} on {origin}"));
+            acc.violation("C03|machinery|generator-reference-disagree".to_string(), format!("{m} ({origin})"), json!({"kind":"valid-stream","bytes":hex(&b.bytes),"pcm":b.pcm,"ch":spec.channels,"rate":spec.rate,"bps":spec.bps,"md5":format!("{:?}",spec.md5),"origin":origin}));
+        }
+        Ok(None) => acc.outcome(format!("{class}:ok")),
+        Ok(Some((clause, detail))) => {
+            acc.outcome(format!("{class}:{clause}"));
+            acc.violation(format!("C03|{clause}"), format!("{detail} [{origin}]"), json!({"kind":"valid-stream","bytes":hex(&b.bytes),"pcm":b.pcm,"ch":spec.channels,"rate":spec.rate,"bps":spec.bps,"md5":format!("{:?}",spec.md5),"origin":origin}));
+        }
+    }
+    if acc.states % 5000 == 1 {
+        acc.sample(json!({"origin": origin, "stream_bytes": b.bytes.len(), "hex_prefix": hex(&b.bytes[..b.bytes.len().min(80)])}));
+    }
+}
+
+fn mono(bps: u8, n: usize, tkind: usize, sub: SubSpec) -> StreamSpec {
+    let mut f = plain_frame(vec![gspace::target(tkind, bps, 0, n, 0, sub.wasted)]);
+    f.subframes[0] = sub;
+    plain_stream(1, bps, 44100, vec![f])
+}
+
+pub fn run(ctx: &Ctx, acc: &mut Acc) {
+    let m = menus();
+    // ---- deviation-bounded lattice
+    for_each_deviation(&m, if ctx.quick { 2 } else { 3 }, |k| {
+        if !ctx.mine() {
+            return;
+        }
+        let axes: Vec<&str> = k.iter().enumerate().filter(|(_, v)| **v != 0).map(|(i, _)| NAMES[i]).collect();
+        let class = format!("dev:{}", axes.join("+"));
+        match make_spec(k) {
+            Ok(spec) => run_spec(acc, &spec, &class, json!({"vector": k})),
+            Err(_) => {
+                acc.dim("inapplicable", 1);
+            }
+        }
+    });
+    // ---- single-axis sweeps
+    // every LPC order × precision × shift class × coefficient pattern, at 4 depths
+    for bps in [8u8, 16, 24, 32] {
+        for order in 1..=32u8 {
+            for precision in 1..=15u8 {
+                for shift in [0u8, precision.saturating_sub(1).min(15), 15] {
+                    for pat in 0..3u8 {
+                        for tk in [0usize, 2] {
+                            if !ctx.mine() {
+                                continue;
+                            }
+                            let mxc = (1i32 << (precision - 1)) - 1;
+                            let coefs: Vec<i32> = (0..order as usize).map(|j| match pat { 0 => if j == 0 { mxc.min(1 << shift.min(14)) } else { 0 }, 1 => if j % 2 == 0 { mxc } else { -mxc - 1 }, _ => if j < 2 { mxc } else { 0 } }).collect();
+                            let mut sub = plain_sub();
+                            sub.kind = SubKind::Lpc { order, precision, shift, coefs };
+                            sub.res.method = (bps > 16) as u8;
+                            run_spec(acc, &mono(bps, 40, tk, sub), "sweep:lpc", json!({"sweep":"lpc","bps":bps,"order":order,"precision":precision,"shift":shift,"pattern":pat,"target":tk}));
+                        }
+                    }
+                }
+            }
+        }
+    }
+    // every Rice parameter / escape width, both methods
+    for bps in [8u8, 16, 24, 32] {
+        for method in 0..2u8 {
+            for p in 0..(if method == 0 { 15 } else { 31 }) {
+                for tk in [0usize, 2, 3] {
+                    for kind in [SubKind::Fixed(0), SubKind::Fixed(2)] {
+                        if !ctx.mine() {
+                            continue;
+                        }
+                        let mut sub = plain_sub();
+                        sub.kind = kind.clone();
+                        sub.res = ResSpec { method, order: 1, params: vec![PartParam::Rice(p), PartParam::Auto] };
+                        run_spec(acc, &mono(bps, 16, tk, sub), "sweep:rice", json!({"sweep":"rice","bps":bps,"method":method,"param":p,"target":tk}));
+                    }
+                }
+            }
+            for w in 0..32u8 {
+                for tk in [0usize, 1, 2, 3] {
+                    if !ctx.mine() {
+                        continue;
+                    }
+                    let mut sub = plain_sub();
+                    sub.kind = SubKind::Fixed(1);
+                    sub.res = ResSpec { method, order: 0, params: vec![PartParam::Escape(Some(w))] };
+                    run_spec(acc, &mono(bps, 16, tk, sub), "sweep:escape", json!({"sweep":"escape","bps":bps,"method":method,"width":w,"target":tk}));
+                }
+            }
+        }
+    }
+    // every wasted-bit count at every depth; every depth through STREAMINFO reference
+    for bps in 1..=32u8 {
+        for w in 0..bps {
+            for kind in [SubKind::Verbatim, SubKind::Fixed(1), SubKind::Constant] {
+                for tk in [0usize, 3, 4] {
+                    if !ctx.mine() {
+                        continue;
+                    }
+                    let mut sub = plain_sub();
+                    sub.kind = kind.clone();
+                    sub.wasted = w;
+                    let mut spec = mono(bps, 16, tk, sub);
+                    if w % 2 == 1 {
+                        spec.frames[0].bps = BpsCoding::Streaminfo;
+                    }
+                    run_spec(acc, &spec, "sweep:wasted", json!({"sweep":"wasted","bps":bps,"wasted":w,"target":tk}));
+                }
+            }
+        }
+    }
+    // every legal partition order for block sizes 16..=64 and predictor orders 0..4
+    for n in 16..=64usize {
+        for po in 0..=6u8 {
+            for fo in 0..=4u8 {
+                if n % (1 << po) != 0 || (n >> po) <= fo as usize {
+                    continue;
+                }
+                if !ctx.mine() {
+                    continue;
+                }
+                let mut sub = plain_sub();
+                sub.kind = SubKind::Fixed(fo);
+                sub.res = ResSpec { method: 0, order: po, params: vec![PartParam::Auto, PartParam::Escape(None), PartParam::Rice(2)] };
+                run_spec(acc, &mono(16, n, 3, sub), "sweep:partition", json!({"sweep":"partition","n":n,"order":po,"fixed":fo}));
+            }
+        }
+    }
+    // stereo modes at every depth incl. the 33-bit side channel, all target kinds, wasted bits on the side channel
+    for bps in [4u8, 8, 16, 24, 31, 32] {
+        for assign in [Assign::LeftSide, Assign::SideRight, Assign::MidSide, Assign::Independent] {
+            for tk in 0..5usize {
+                for kind in [SubKind::Verbatim, SubKind::Fixed(1), SubKind::Fixed(4)] {
+                    for w in [0u8, 1, 2] {
+                        if !ctx.mine() {
+                            continue;
+                        }
+                        let pcm: Vec<Vec<i32>> = (0..2).map(|c| gspace::target(tk, bps, c, 24, 0, w)).collect();
+                        let mut f = plain_frame(pcm);
+                        f.assign = assign.clone();
+                        for s in f.subframes.iter_mut() {
+                            s.kind = kind.clone();
+                            s.wasted = w;
+                            s.res.method = 1;
+                        }
+                        let spec = plain_stream(2, bps, 48000, vec![f]);
+                        run_spec(acc, &spec, "sweep:stereo", json!({"sweep":"stereo","bps":bps,"assign":format!("{assign:?}"),"target":tk,"wasted":w}));
+                    }
+                }
+            }
+        }
+    }
+}
+
+pub fn replay(v: &Value) -> Option<(bool, String)> {
+    if v["kind"] != "valid-stream" {
+        return None;
+    }
+    let bytes = crate::core::unhex(v["bytes"].as_str()?);
+    let pcm = crate::core::ivec(&v["pcm"]);
+    let md5 = match v["md5"].as_str()? { "Correct" => Md5Spec::Correct, "Zero" => Md5Spec::Zero, _ => Md5Spec::Wrong };
+    let b = Built { bytes, first_frame_offset: 0, frame_offsets: vec![], pcm, minimal_numbers: true, any_bad: false };
+    let mut spec = plain_stream(v["ch"].as_u64()? as u8, v["bps"].as_u64()? as u8, v["rate"].as_u64()? as u32, vec![]);
+    spec.md5 = md5;
+    match judge(&b, &spec) {
+        Err(m) => Some((true, format!("machinery: {m}"))),
+        Ok(None) => Some((false, "all readers return the defined samples".into())),
+        Ok(Some((c, d))) => Some((true, format!("{c}: {d}"))),
+    }
+}
